@@ -277,6 +277,15 @@ class Evaluator(object):
 
     def stmt(self, st, env):
         if isinstance(st, ast.Assign):
+            sd = st.value
+            if isinstance(sd, ast.Call) and isinstance(sd.func, ast.Attribute) and sd.func.attr == "setdefault" and isinstance(sd.func.value, ast.Name) and len(sd.args) == 2 and not sd.keywords and sd.func.value.id in env and not _is_module_term(env[sd.func.value.id]):
+                # x = d.setdefault(k, v)  is  d.setdefault(k, v); x = d[k]
+                self.expr_stmt(ast.copy_location(ast.Expr(value=sd), st), env)
+                key = self.ev(sd.args[0], env)
+                v = tm.sub(env[sd.func.value.id], key)
+                for tg in st.targets:
+                    self.assign(tg, v, env, st)
+                return env
             v = self.ev(st.value, env)
             for tg in st.targets:
                 self.assign(tg, v, env, st)
